@@ -49,6 +49,12 @@ def post(obs, tier, rep):
         bad, rec = cache[cls]
         tail = ".".join(parts[parts.index(cls) + 2:])
         fam = "step" if tail.endswith("step") else ("dead" if tail.endswith("dead") else ("shift_any" if "shift" in tail else tail))
+        if fam in ("step", "dead") and cls == "propagator_cpmc" and _second_history_fails(cache):
+            # a DIFFERENT failing history than the listed finding: a site where one field value is allowed must keep the walker alive
+            o["replayed"] = True
+            o["witness_class"] = "nan-with-one-field-allowed"
+            o["witness"] = dict(model=o.get("witness"), native=cache["second"])
+            continue
         if fam in bad:
             o["replayed"] = True
             o["witness_class"] = "nan-after-fully-constrained-walker"
@@ -59,6 +65,18 @@ def post(obs, tier, rep):
             o["detail"] = ("refuted only under the havoc over-approximation (non-weight quantities range over all doubles incl. NaN/inf); no native history "
                            "reproduces it: neither proved nor reported as a violation. solver model: " + str(o.get("witness"))[:160])
     return obs
+
+
+def _second_history_fails(cache):
+    if "second" not in cache:
+        try:
+            from contracts import cpmc
+            oo = dict(name="C10.cpmc.site.constraint[uhf_cpmc,fast,site=0,x=1]", witness=None)
+            cpmc._replay_constraint(oo)
+            cache["second"] = dict(oo["witness"]["native"], fails=bool(oo["replayed"]))
+        except Exception as e:   # noqa
+            cache["second"] = dict(fails=False, error=repr(e)[:200])
+    return cache["second"].get("fails", False)
 
 
 def _replay_phaseless(o, cls):
